@@ -40,6 +40,7 @@ type c11Msg struct {
 	NestedSrc  string    `json:"nested,omitempty"` // a plural nested in the first case (source text)
 	Tags       []string  `json:"tags,omitempty"`   // triggers: lookalike, empty, nested, badplural, parens, descnl
 	Desc       string    `json:"desc,omitempty"`   // appended to the generated description (source text of the attribute)
+	depth      int       // block depth at the message (for call placeholders)
 }
 
 func (m *c11Msg) has(tag string) bool {
@@ -52,14 +53,14 @@ func (m *c11Msg) has(tag string) bool {
 }
 
 var c11Msgs []*c11Msg
-var c11Rates = struct{ lookalike, empty, nested, badplural, parens, twin int }{3, 5, 15, 15, 4, 110} // per mille of messages
+var c11Rates = struct{ lookalike, empty, nested, badplural, parens, twin, call int }{3, 5, 15, 15, 4, 110, 25} // per mille of messages
 
 func c11Token(i int) string { return fmt.Sprintf("@@MSG%d@@", i) }
 
 var c11TokenRe = regexp.MustCompile(`@@MSG(\d+)@@`)
 
 func c11MsgHook(g *progGen, env genv, d int) string {
-	m := &c11Msg{Idx: len(c11Msgs)}
+	m := &c11Msg{Idx: len(c11Msgs), depth: d}
 	c11Msgs = append(c11Msgs, m)
 	r := g.r
 	if r.Chance(15) {
@@ -269,6 +270,18 @@ func (m *c11Msg) genParts(g *progGen, env genv, n int) []c11Part {
 				nm := r.Pick([]string{"X", "NAME", "A_1", "0", "START_BOLD", "A", "B"})
 				ps = append(ps, c11Part{Src: "{lb}", Text: "{"}, c11Text(nm), c11Part{Src: "{rb}", Text: "}"})
 				g.feat("msg-lookalike")
+			case r.Intn(1000) < c11Rates.call*14:
+				// a {call} as a placeholder (its name is XXX): the translation moves, drops or repeats the call
+				po, no := g.o.msgPO, g.o.noMsg
+				g.o.msgPO, g.o.noMsg = false, true // no message inside the call's parameter blocks
+				src := g.call(env, 0) // depth 0: expression parameters only (the parser refuses if / for / switch anywhere inside a msg, parameter blocks included)
+				g.o.msgPO, g.o.noMsg = po, no
+				if src != "" {
+					ps = append(ps, c11Part{Ph: true, Src: src})
+					g.feat("msg-call")
+				} else {
+					ps = append(ps, c11Text(r.Pick(c11Words)))
+				}
 			case r.Intn(1000) < c11Rates.parens*14 && len(ints) > 0:
 				// two expressions that differ only in their parentheses
 				v := g.use(ints[r.Intn(len(ints))])
